@@ -98,7 +98,16 @@ class ExprMixin:
                             # ghost: bounds of the most recent string slice (for tiling assertions)
                             s2.env['_slice_lo'] = lo if (lo is not None and isinstance(lo.t, TInt)) else mk_int(0)
                             s2.env['_slice_hi'] = hi if (hi is not None and isinstance(hi.t, TInt)) else mk_int(z3.Length(base.e))
-                        yield s2, self.slice(base, lo, hi, step, node)
+                        res = self.slice(base, lo, hi, step, node)
+                        if isinstance(base.t, TStr) and step is None and getattr(self, 'slice_axioms', False):
+                            # valid in the theory of sequences, stated so that E-matching can use it:
+                            # the characters of s[a:b] are the characters of s from a on
+                            n = z3.Length(base.e)
+                            a = self.clamp(n, lo, z3.IntVal(0))
+                            k = z3.Int(fresh_name('sk'))
+                            s2.assume(z3.ForAll([k], z3.Implies(z3.And(0 <= k, k < z3.Length(res.e)),
+                                                                z3.SubString(res.e, k, 1) == z3.SubString(base.e, a + k, 1))))
+                        yield s2, res
                     continue
                 for s2, idx in self.ev(node.slice, s1):
                     if isinstance(idx, Exc):
